@@ -362,7 +362,7 @@ def std_shrink(model, prop, failure, tries=25):
 
 # ---- the layer below: Signal.then / go / wait / remove_then are atomic in the models of Lock, Queue and composites -----------
 
-def m1_layer_jobs(prop, tier, seed, n_quick=36, n_thorough=80):
+def m1_layer_jobs(prop, tier, seed, n_quick=60, n_thorough=120):
     """the M1 exploration (C01/C02's subject) run for a property of a layer above, so that a change which breaks the atomicity
     of the Signal operations is reported, with a failing schedule, for that property too"""
     from . import p_m1
